@@ -2,9 +2,10 @@ import Mfi.Driver.FxD
 import Mfi.Driver.PanicD
 import Mfi.Driver.InterestD
 import Mfi.Driver.IntegrD
+import Mfi.Driver.BankD
 open Mfi.Driver
 
-def handlers : List (String → List Int → Option String) := [fxOp, panicOp, irOp, igOp]
+def handlers : List (String → List Int → Option String) := [fxOp, panicOp, irOp, igOp, bankOp]
 
 def stepLine (line : String) : String :=
   match line.trimAscii.toString.splitOn " " with
